@@ -10,6 +10,8 @@
 //!    programs, `glob R I K` for the module layer (IO-typed module under `run_io`).
 //!
 //! Everything that touches gluon runs in child processes (`--child run|glob`).
+#[path = "c02/genbind.rs"]
+mod genbind;
 #[path = "c02/mutate.rs"]
 mod mutate;
 #[path = "c02/sexp.rs"]
@@ -470,6 +472,9 @@ struct Case {
     gen: Option<(Expr, Ty)>,
     /// for the construct statistics
     expr: Option<Expr>,
+    /// family "generalisation under a binder": (let-expanded form for the model's `acc` request,
+    /// well-typed by construction?)
+    acc: Option<(Expr, bool)>,
 }
 
 impl Case {
@@ -618,6 +623,8 @@ fn failures_of_outcome(case: &Case, mask: u8, out: &str, what_ran: &str, fails: 
 
 struct Verdict {
     accepted: bool,
+    /// the type checker answered (accept or reject) rather than dying
+    verdict_given: bool,
     fails: Vec<Fail>,
     /// outcome under mask 0 (if it ran)
     out0: Option<String>,
@@ -626,7 +633,7 @@ struct Verdict {
 }
 
 fn judge(case: &Case, res: &Result<String, (String, String)>, out: &mut Out) -> Verdict {
-    let mut v = Verdict { accepted: false, fails: vec![], out0: None, outcomes: vec![] };
+    let mut v = Verdict { accepted: false, verdict_given: false, fails: vec![], out0: None, outcomes: vec![] };
     let r: Value = match res {
         Err((class, stage)) => {
             let mask = stage.split(' ').nth(1).and_then(|m| m.parse::<u8>().ok()).unwrap_or(0);
@@ -670,7 +677,15 @@ fn judge(case: &Case, res: &Result<String, (String, String)>, out: &mut Out) -> 
             out.count(&format!("tc-panic:{}", case.origin_key()));
         }
         "reject" => {
+            v.verdict_given = true;
             out.count(&format!("reject:{}", case.origin_key()));
+            if case.origin.starts_with("genbind") {
+                // the family must never fail to PARSE (that would hide its ill-typed members)
+                let m = r["tc_msg"].as_str().unwrap_or("");
+                if m.contains("Unexpected token") || m.contains("Unexpected end") || m.contains("parse") {
+                    out.count("genbind:PARSE-ERROR");
+                }
+            }
             if case.origin == "generated" {
                 if let Ok(path) = std::env::var("C02_DUMP") {
                     // debugging aid: the generator's slips
@@ -683,6 +698,7 @@ fn judge(case: &Case, res: &Result<String, (String, String)>, out: &mut Out) -> 
         }
         _ => {
             v.accepted = true;
+            v.verdict_given = true;
             out.count(&format!("accept:{}", case.origin_key()));
             for run in r["runs"].as_array().unwrap() {
                 let mask = run["mask"].as_u64().unwrap() as u8;
@@ -763,6 +779,8 @@ impl Case {
     fn origin_key(&self) -> String {
         if self.origin.starts_with("corpus:") {
             "corpus".into()
+        } else if self.origin.starts_with("genbind:") {
+            self.origin.split(':').take(3).collect::<Vec<_>>().join(":")
         } else {
             self.origin.clone()
         }
@@ -781,6 +799,20 @@ fn record(case: &Case, v: &Verdict, out: &mut Out, idx: usize) {
         let what = if n > 1 { format!("{} (and {} more such failures of this program under other masks)", f.what, n - 1) } else { f.what.clone() };
         out.oracle_fail(&fp, &what, case.replay(f.mask));
         out.count(&format!("oracle:{}", fp));
+    }
+    // B3: acceptance of the family "generalisation under a binder" vs the verified checker on the
+    // let-expanded form (only when the real checker gave a verdict)
+    if let Some((x, typed)) = &case.acc {
+        if v.verdict_given {
+            out.case(&format!("acc {}", sexp::asexp(x)), if v.accepted { "(accept)" } else { "(reject)" });
+            out.count(&format!(
+                "genbind:{}:{}",
+                if *typed { "typed-by-construction" } else { "ill-typed-by-construction" },
+                if v.accepted { "accepted" } else { "rejected" }
+            ));
+        } else {
+            out.count("genbind:no-verdict");
+        }
     }
     if !v.accepted {
         if case.gen.is_some() {
@@ -1000,6 +1032,7 @@ fn gen_scenario(rng: &mut gv::rng::Rng, idx: usize, masks: Vec<u8>) -> Case {
         has_io: !ios.is_empty(),
         gen: None,
         expr: None,
+        acc: None,
     }
 }
 
@@ -1119,6 +1152,7 @@ fn replay_main(args: &Args, path: &std::path::Path) {
         has_io: c["has_io"].as_bool().unwrap_or(false),
         gen: None,
         expr: None,
+        acc: None,
     };
     for (n, t, l) in &case.modules {
         println!("-- module {} ({}):\n{}", n, if *l { "load_script" } else { "add_module" }, t);
@@ -1162,7 +1196,7 @@ fn main() {
             Some(q) => args.extra[q + 1].split(',').map(|m| m.parse().unwrap()).collect(),
             None => vec![0],
         };
-        let case = Case { origin: "probe".into(), name: "probe".into(), src, masks, modules: vec![], has_io: false, gen: None, expr: None };
+        let case = Case { origin: "probe".into(), name: "probe".into(), src, masks, modules: vec![], has_io: false, gen: None, expr: None, acc: None };
         let r = run_parallel("run", vec![case.input()], 1, 1, Duration::from_secs(300));
         println!("{:?}", r[0]);
         let mut out = Out::new(&args.out);
@@ -1203,6 +1237,7 @@ fn main() {
                 has_io: false,
                 gen: None,
                 expr: None,
+                acc: None,
             });
         }
     }
@@ -1228,6 +1263,7 @@ fn main() {
             has_io: false,
             gen: Some((e.clone(), t)),
             expr: Some(e.clone()),
+            acc: None,
         });
         pi += 1;
         let n_mut = if thorough { 2 } else { 1 + (i % 2) };
@@ -1244,6 +1280,7 @@ fn main() {
                     has_io: false,
                     gen: None,
                     expr: Some(m),
+                    acc: None,
                 });
                 pi += 1;
             } else {
@@ -1257,6 +1294,31 @@ fn main() {
     for i in 0..n_scen {
         let masks = masks_for(i * 7 + 3, &mut krng, thorough, all32_every);
         cases.push(gen_scenario(&mut srng, i, masks));
+    }
+
+    // ---- the enumerated family "generalisation under a binder" (c02/genbind.rs): all members in
+    // the thorough tier, every `stride`-th (rotating with the seed) in the quick tier
+    let fam = genbind::family();
+    let stride = if thorough { 1 } else { std::env::var("C02_GENBIND_STRIDE").ok().and_then(|x| x.parse().ok()).unwrap_or(3usize) };
+    out.add("plan:genbind-family-size", fam.len() as u64);
+    out.add("plan:genbind-stride", stride as u64);
+    for (i, m) in fam.into_iter().enumerate() {
+        if (i + args.seed as usize) % stride != 0 {
+            continue;
+        }
+        let src = surf::program_text(&m.expr);
+        let second = 1 + ((i / stride) % 31) as u8;
+        cases.push(Case {
+            origin: format!("genbind:{}", m.shape),
+            name: format!("gb{}", i),
+            src,
+            masks: vec![0, second],
+            modules: vec![],
+            has_io: false,
+            gen: None,
+            expr: Some(m.expr),
+            acc: Some((m.expanded, m.typed)),
+        });
     }
 
     let inputs: Vec<String> = cases.iter().map(|c| c.input()).collect();
